@@ -1444,8 +1444,24 @@ fn get_explicitly_used_regs(func_body: &[Sp<LowerStmt>]) -> BTreeMap<RegId, Span
         .filter_map(|stmt| match &stmt.value {
             LowerStmt::Instr(LowerInstr { args: LowerArgs::Known(args), .. }) => Some(args),
             _ => None
-        }).flat_map(|args| args.iter().filter_map(|arg| match &arg.value {
-            LowerArg::Raw(raw) => raw.get_reg_id().map(|reg| (reg, arg.span)),
-            _ => None,
-        })).collect()
+        }).flat_map(|args| {
+            let mut found = vec![];
+            for arg in args {
+                gather_explicit_regs_in_arg(arg, &mut found);
+            }
+            found
+        }).collect()
+}
+
+// (registers may also be mentioned inside the cases of a difficulty switch)
+fn gather_explicit_regs_in_arg(arg: &Sp<LowerArg>, out: &mut Vec<(RegId, Span)>) {
+    match &arg.value {
+        LowerArg::Raw(raw) => out.extend(raw.get_reg_id().map(|reg| (reg, arg.span))),
+        LowerArg::DiffSwitch(cases) => {
+            for case in cases.iter().flatten() {
+                gather_explicit_regs_in_arg(case, out);
+            }
+        },
+        _ => {},
+    }
 }
